@@ -305,7 +305,11 @@ func solve(file string, timeoutS int, all bool) SolverResult {
 // in milliseconds), then the race.
 func solveFast(file string, timeoutS int, all bool) SolverResult {
 	if !all {
-		st, out, d := runOne(context.Background(), solvers[0], file, 2)
+		first := 4
+		if timeoutS < first {
+			first = timeoutS
+		}
+		st, out, d := runOne(context.Background(), solvers[0], file, first)
 		if st == "unsat" || st == "sat" {
 			r := SolverResult{Status: st, Solver: solvers[0].name, Time: d, Output: out, All: map[string]string{solvers[0].name: st}}
 			if st == "sat" {
